@@ -35,6 +35,11 @@ CHECKS = {
    "The harness polls receive futures by hand and drops them at generated suspension points; the sequence of results must equal the reference decode of each frame. All subsets of <= 12 suspension points of 30 small streams and every k for byte-at-a-time delivery are enumerated.",
    "Trusted: the simulated read half is itself cancel safe; reference as in C01. Only cancellation of the connection's own receive futures is covered here (the server's use of them is exercised by C08-C10).",
    "§3 C07"),
+ "C17": ("exploration", "vcheck",
+   "exhaustive size sweep (every inbound frame size 1..=limit+512 x chunk sizes, outbound sizes around every 256-byte step and the limit from several fill positions) under a hook-lowered limit of 83*256 bytes + production-limit inbound cases (100 MiB -257/-256/-2/-1/+0/+1/+300, unterminated over/under); threshold oracle from the statement + byte-exact delivery",
+   "Every inbound frame size up to limit+512 is received under 4-6 chunk sizes (terminated, unterminated+EOF, unterminated+waiting, behind pipelined prefixes) and every relevant outbound size is sent from an empty queue and behind an enqueued message: below the limit => intact, above => BufferOverflow with nothing of the refused message written, the queued message and a later message intact; the receive buffer (inferred from the slices offered to the read half) never exceeds limit+256. The production build confirms the inbound thresholds at 100 MiB.",
+   "Trusted: the small-limit build differs from production only in the constant (cfg zlink_verif_small_buf; 83*256 so that doubling strategies do not land on it); size == limit is recorded but not judged; outbound near 100 MiB is unreachable (quadratic re-serialisation) and covered under the lowered limit only.",
+   "§3 C17"),
 }
 
 REASONS_PENDING = "check not built yet in this session; planned with property-based testing as described in DESIGN.md §3"
@@ -64,7 +69,7 @@ def main():
         "version": 1,
         "setup_cmd": "./check --setup",
         "hooks": {
-            "guard": "rustc cfg `zlink_verif` (exposes zlink_core::__verif::json_to_slice) and `zlink_verif_small_buf` (MAX_BUFFER_SIZE = 16 KiB, used only by the C17 build)",
+            "guard": "rustc cfg `zlink_verif` (exposes zlink_core::__verif::json_to_slice) and `zlink_verif_small_buf` (MAX_BUFFER_SIZE = 83*256 bytes, used only by the C17 build; with zlink_verif also exposes the compiled-in limit)",
             "enable": "RUSTFLAGS=\"--cfg zlink_verif\" (plus \"--cfg zlink_verif_small_buf\" into a separate target dir for C17); set by ./check for every harness build",
             "baseline_off_cmd": BASELINE,
             "source_commits": [c.split()[0] for c in hooks_commits],
